@@ -553,23 +553,45 @@ func (m *Model) RemFact(loc, id string, p Prot) (exists bool, removed []string, 
 // become uncertain until the engine is known to have observed the item.
 func (m *Model) Purge(l *MLoc) {
 	for {
-		again := false
+		// everything that has run out by now
+		var expired []string
+		isExpired := map[string]bool{}
 		for _, id := range sortedItemIds(l) {
-			it := l.Items[id]
-			if it != nil && !m.Live(it) {
-				removed := m.rem(l, id)
-				m.pend(l)[id] = true
-				for _, d := range removed {
-					if d != id {
-						m.markUnc(l, d, map[string]bool{id: true})
-					}
-				}
-				// items that stay but were already uncertain keep their marks
-				again = true
+			if it := l.Items[id]; it != nil && !m.Live(it) {
+				expired = append(expired, id)
+				isExpired[id] = true
 			}
 		}
-		if !again {
+		if len(expired) == 0 {
 			return
+		}
+		for _, id := range expired {
+			if l.Items[id] == nil {
+				continue // went as a dependent of another expired item
+			}
+			removed := m.rem(l, id)
+			m.pend(l)[id] = true
+			// The engine purges an expired item, and cascades from it, when it
+			// observes that item; its cascade does not pass through another item
+			// that has expired but has not been observed yet (a search for
+			// dependents does not return expired items).  So what went here is
+			// certain only once every expired item on its way has been observed.
+			by := map[string]bool{id: true}
+			for _, d := range removed {
+				if isExpired[d] {
+					by[d] = true
+				}
+			}
+			for _, d := range removed {
+				if d == id {
+					continue
+				}
+				if isExpired[d] {
+					m.pend(l)[d] = true
+				} else {
+					m.markUnc(l, d, by)
+				}
+			}
 		}
 	}
 }
@@ -959,6 +981,29 @@ func (m *Model) Clone() *Model {
 // interrupted half-way).
 func (m *Model) MarkFault(loc, id string) {
 	m.markUnc(m.Loc(loc), id, map[string]bool{"+fault": true})
+}
+
+// FaultPendingPurges is called after a crash: the engine may have been in the
+// middle of purging an expired item (any request that comes across one does
+// that, a read included) - the item itself gone from storage, its dependents
+// not yet.  Observing the item later settles nothing then, so whatever was
+// waiting for the purge of a pending item stays a don't-care for good.
+func (m *Model) FaultPendingPurges() {
+	for ln, l := range m.Locs {
+		m.Purge(l)
+		pend := m.Pending[ln]
+		if len(pend) == 0 {
+			continue
+		}
+		for d, by := range m.unc(l) {
+			for k := range by {
+				if pend[k] {
+					m.MarkFault(ln, d)
+					break
+				}
+			}
+		}
+	}
 }
 
 // ItemKey renders an item for old/new comparison ("" = absent).
